@@ -252,7 +252,8 @@ REG = {
          "Erfi is checked for |x| < 26 (beyond, the value overflows).",
     technique="integer/rational TLA+ specification of Round, the comparison helpers and the VSH coefficient tables (TLC exhaustive with a completeness law), replay of exported cases, trace validation of harmonic identities for every (l,m) and of recorded relations"),
  "C11": dict(
-    engine="spec/NelderMead.tla, MC_NelderMead.tla, Brent.tla, Trace_Min.tla (2 cfgs), Rat.tla; harness/c11.cpp",
+    engine="spec/NelderMead.tla, MC_NelderMead.tla, Brent.tla, BrentCore.tla, Bracket.tla, MC_Bracket.tla, Trace_Min.tla (2 cfgs), Trace_Bracket.tla, Trace_FindMin.tla, Trace_NM.tla, "
+           "proofs/Bracket_Proof.tla, proofs/Brent_Proof.tla (TLAPS), Rat.tla; harness/c11.cpp",
     design_ref="DESIGN.md §4.11",
     text="NelderMead.tla transcribes Minimization::minimize in exact rational arithmetic (ranking with the code's tie rules, fractional-range test, amotry with factors -1, 2, 1/2 and "
          "its acceptance test, shrink, psum maintenance, nfunc accounting, final swap); on integer quadratics from integer simplices every quantity is dyadic, so the model follows the "
@@ -263,9 +264,14 @@ REG = {
          "than the start, Find_Maximum(-f) identical bits, within the distance implied by the tolerance and the flatness of f), and minimize (three overloads, in child processes) on "
          "convex bowls of dimension 1..6 and multimodal objectives (returns, not worse than the start, fmin/y/current_simplex consistent with the objective bit for bit, distance).",
     note="The distance clause for the simplex method is decided on a fixed stream of bowls (400 quick / 2000 thorough, independent of the seed); the unchanged code violates it on 141 of the "
-         "2000 (termination on the fractional spread of the vertex values), which are listed one by one in the known finding, so any other failing case is reported. Shrink steps are not "
-         "exercised by the exact model. Brent's loop is modelled abstractly (Brent.tla: trial point anywhere in the bracket at least tol1 from x; TLC: the minimiser stays bracketed, x is the best point evaluated, |x - m| <= 2 tol1 on return), the bracketing phase is not.",
-    technique="exact-rational TLA+ transcription of Nelder-Mead (TLC exhaustive on a lattice of quadratics and simplices), per-run replay with exact comparison of evaluation sequences, trace validation of recorded minimisations"),
+         "2000 (termination on the fractional spread of the vertex values), which are listed one by one in the known finding, so any other failing case is reported. Shrink steps are "
+         "exercised by the exact model through two-well objectives. Brent's loop is modelled abstractly (Brent.tla: trial point anywhere in the bracket at least tol1 from x; TLC: the minimiser stays bracketed, x is the best point evaluated, |x - m| <= 2 tol1 on return). "
+         "The bracketing phase is Bracket.tla, one action per evaluation with positions and values as integers (every decision of the code is a comparison): TLC checks it on a grid for unimodal and bumped objectives and every admissible position of every proposed point, "
+         "TLAPS proves its inductive invariant (triple strictly monotone, f(bx) <= f(ax), a bracketing triple on return) for every objective, and proves that Brent's bookkeeping keeps x, the better of x and the trial point, inside a never-growing bracket. "
+         "Three rank traces bind these models to the code at the A level (model drift): executions of the bracketing phase through the guarded hook Verif_Bracket, whole executions of Find_Minimum/Find_Maximum (bracketing, hand-over, Brent bookkeeping), and whole executions of "
+         "minimize on arbitrary objectives against the control structure of NelderMead.tla (ranking with tie rules, acceptance, expansion, contraction, shrink, reported y/nfunc/fmin).",
+    technique="exact-rational TLA+ transcription of Nelder-Mead (TLC exhaustive on a lattice of quadratics, two-well objectives and simplices), per-run replay with exact comparison of evaluation sequences, trace validation of recorded minimisations; "
+              "comparison-level TLA+ models of the bracketing phase and of Brent's bookkeeping (TLC on a grid, TLAPS for every objective) with rank-trace validation of recorded executions"),
  "C15": dict(
     engine="spec/Eigen.tla, MC_Eigen.tla, Trace_Eigen.tla, LinAlg.tla; harness/c15.cpp",
     design_ref="DESIGN.md §4.15",
